@@ -881,6 +881,10 @@ spifconf_parse_line(FILE * fp, spif_charptr_t buff)
       case '\0':
           SPIFCONF_PARSE_RET();
       case '%':
+          if (!spiftool_get_pword(1, buff + 1)) {
+              /* Nothing follows the '%':  no directive to compare, nothing to expand. */
+              SPIFCONF_PARSE_RET();
+          }
           if (!BEG_STRCASECMP(spiftool_get_pword(1, buff + 1), "include ")) {
               spif_charptr_t path;
               FILE *fp;
